@@ -40,6 +40,8 @@ type Table struct {
 
 // NewTable creates a new Table
 func NewTable(name string) *Table {
+	verifYield("newTable")
+
 	return &Table{
 		Name:          name,
 		Indexes:       map[string]*index{},
